@@ -1,3 +1,69 @@
-From WalModel Require Import Eval.
-Theorem tmp : True. Proof. exact I. Qed.
-Print Assumptions tmp.
+(** C10 — reader is total and literals denote their values in every position.
+    Statements only; proofs in proofs/ReaderProofs.v.  The reader model (Reader.v) is a total
+    Gallina function: every text yields an expression, a ParseError or "outside the model".
+    PARTIAL: that the implementation (Lark) raises nothing but ParseError, and that it agrees
+    with the model on every text, is decided by the differential check (random and mutated
+    texts), not by a theorem; layout invariance is proved for leading white space only. *)
+From WalModel Require Import Reader.
+From WalModel.proofs Require Import CsvProofs ReaderProofs.
+Local Open Scope Z_scope.
+
+(** decimal, signed, 0x and 0b literals of any length denote their value wherever a primary
+    expression may stand (top level, list element, after ' ` , ,@, @ offset, slice bound): the
+    continuation [rest] is arbitrary apart from not continuing the numeral *)
+Theorem decimal_literal : forall f ds rest,
+  all_digits ds = true -> ds <> EmptyString -> slen ds <= 4000 -> number_end rest = true ->
+  p_primary (S f) (ds ++ rest) = ROk (VInt (dv ds)) rest.
+Proof. exact decimal_literal_anywhere. Qed.
+Print Assumptions decimal_literal.
+
+Theorem signed_literal : forall f (neg : bool) ds rest,
+  all_digits ds = true -> ds <> EmptyString -> slen ds <= 4000 -> number_end rest = true ->
+  p_primary (S f) (String (if neg then "-" else "+")%char (ds ++ rest)) = ROk (VInt (if neg then - dv ds else dv ds)) rest.
+Proof. exact signed_literal_anywhere. Qed.
+Print Assumptions signed_literal.
+
+Theorem hex_literal : forall f hs rest,
+  sall is_hex hs = true -> hs <> EmptyString -> number_end rest = true ->
+  p_primary (S f) ("0x" ++ hs ++ rest) = ROk (VInt (hv hs)) rest.
+Proof. exact hex_literal_anywhere. Qed.
+Print Assumptions hex_literal.
+
+Theorem bin_literal : forall f bs rest,
+  sall is_bin bs = true -> bs <> EmptyString -> number_end rest = true ->
+  p_primary (S f) ("0b" ++ bs ++ rest) = ROk (VInt (bv bs)) rest.
+Proof. exact bin_literal_anywhere. Qed.
+Print Assumptions bin_literal.
+
+(** [dv] is the mathematical value: it inverts the decimal numeral of any natural number *)
+Theorem dv_is_the_value : forall z, 0 <= z -> all_digits (numeral 10 z) = true /\ dv (numeral 10 z) = z.
+Proof. intros z Hz. split; [apply numeral10_digits|apply dv_numeral10]; exact Hz. Qed.
+Print Assumptions dv_is_the_value.
+
+(** a whole text consisting of one decimal numeral reads as that integer (whole input consumed) *)
+Theorem read_decimal_text : forall ds,
+  all_digits ds = true -> ds <> EmptyString -> slen ds <= 4000 -> read_sexpr ds = ROk (VInt (dv ds)) EmptyString.
+Proof. exact read_decimal. Qed.
+Print Assumptions read_decimal_text.
+
+(** string literals denote the characters given by their escape sequences: for the escapes the
+    printer writes (backslash, quote, newline, tab, carriage return) and any other ASCII character *)
+Theorem string_literal : forall f s rest, p_primary (S f) (quote_string s ++ rest) = ROk (VStr s) rest.
+Proof. exact string_literal_roundtrip. Qed.
+Print Assumptions string_literal.
+
+(** leading white space does not change what is read *)
+Theorem leading_whitespace : forall ws s fuel, sall is_ws ws = true -> (String.length ws <= fuel)%nat ->
+  skip_inter (String.length ws + fuel) (ws ++ s) = skip_inter fuel s.
+Proof. exact skip_inter_ws. Qed.
+Print Assumptions leading_whitespace.
+
+(** booleans, other escapes, comments, shebang: by computation on the model *)
+Example literal_examples :
+  read_sexpr "#t" = ROk (VBool true) "" /\ read_sexpr "false" = ROk (VBool false) "" /\
+  read_sexpr "(0b101 0x1F -12)" = ROk (WL [VInt 5; VInt 31; VInt (-12)]) "" /\
+  read_sexpr "sig@-2" = ROk (WL [VOp OReval; Sy "sig"; VInt (-2)]) "" /\
+  read_sexpr "a[0x10:0b1]" = ROk (WL [VOp OSlice; Sy "a"; VInt 16; VInt 1]) "" /\
+  read_sexpr (String (ch 34) (String (ch 92) (String "x" (String "4" (String "1" (String (ch 34) "")))))) = ROk (VStr "A") "" /\
+  read_sexprs (String "#" (String "!" ("/usr/bin/wal" ++ String (ch 10) ("; c" ++ String (ch 10) "(a) 1")))) = ROk [WL [Sy "a"]; VInt 1] "".
+Proof. vm_compute. repeat split; reflexivity. Qed.
